@@ -32,6 +32,10 @@ def f3(x, y, z, b=2.0):
     return b * x + y * z + 2.25
 
 
+def fk(x, y, *, p, q):
+    return p * x + q * y + 0.5
+
+
 def ft(x, y, *, t, c=0.5):
     return c * (x + y) + t + 0.75
 
@@ -272,6 +276,15 @@ def run(rep: common.Report, tier: str, seed: int, replay=None) -> int:
         ("keyword arguments reach the function", float(Pb(X, Y)) == f2(X, Y, a=2.0) and float((Pb - Pa)(X, Y)) == f2(X, Y, a=2.0) - f2(X, Y, a=1.0)),
         ("keyword arguments reach a time-dependent function two levels down",
          float(((Tb * 2) + Pa)(X, Y, t=T)) == ft(X, Y, t=T, c=0.25) * 2 + f2(X, Y, a=1.0) and ((Tb * 2) + Pa).time_dependent),
+    ]
+    Ka, Kb, Kc = _t.Parameter(fk, p=1.0, q=2.0), _t.Parameter(fk, q=2.0, p=1.0), _t.Parameter(fk, p=2.0, q=1.0)
+    kw_checks += [
+        ("keyword arguments written in another order are the same parameter", Ka == Kb and (Ka * 2) == (Kb * 2)
+         and float(Ka(X, Y)) == float(Kb(X, Y))),
+        ("the same values attached to other keywords are a different parameter", Ka != Kc and (Ka + 1) != (Kc + 1)
+         and float(Ka(X, Y)) == fk(X, Y, p=1.0, q=2.0) and float(Kc(X, Y)) == fk(X, Y, p=2.0, q=1.0)),
+        ("a pickled copy equals the original whatever the keyword order",
+         pickle.loads(pickle.dumps(Kb * Ka)) == (Ka * Kb)),
     ]
     for what, ok in kw_checks:
         if not ok:
